@@ -11,7 +11,7 @@ import re
 import json
 from fractions import Fraction
 
-from sympy import Mul, Pow, S, Rational, Add, Symbol
+from sympy import Mul, Pow, S, Rational, Add, Symbol, sympify
 from adcgen.sympy_objects import (AntiSymmetricTensor, SymmetricTensor,
                                   Amplitude, NonSymmetricTensor,
                                   KroneckerDelta)
@@ -168,21 +168,55 @@ def coq_pairs(m):
 
 
 # --------------------------------------------------- implementation side ---
+_EXC_COUNT = {}
+
+
+class Unencodable(Exception):
+    pass
+
+
 def enc_obj(res, pool):
-    """encoding of a constructor result (sympy object)"""
-    if res == 0:
+    """encoding of a constructor / substitution result (sympy object)"""
+    res = sympify(res)
+    if res == 0 or res.is_zero:
         return ("", [0])
     neg = 0
-    if isinstance(res, Mul):
-        c, t = res.args
-        if c != -1:
-            raise ValueError(f"unexpected prefactor in {res!r}")
-        neg, res = 1, t
+    coeff, rest = res.as_coeff_Mul()
+    if coeff == 0:
+        return ("", [0])
+    if coeff == -1:
+        neg, res = 1, rest
+    elif coeff != 1:
+        raise Unencodable(f"unexpected prefactor in {res!r}")
+    if not isinstance(res, AntiSymmetricTensor):
+        raise Unencodable(f"not a tensor: {res!r}")
     kind = adcio.tens_kind(res)
+    try:
+        pos = [pool.pos[x] for x in res.upper] + [pool.pos[x] for x in res.lower]
+    except KeyError as ex:
+        raise Unencodable(f"foreign index {ex} in {res!r}")
     return (res.name, [1, neg, KCODE[kind], int(res.bra_ket_sym),
-                       len(res.upper)]
-            + [pool.pos[x] for x in res.upper]
-            + [pool.pos[x] for x in res.lower])
+                       len(res.upper)] + pos)
+
+
+def guarded(ctx, what, descr, fn, default=None):
+    """run fn(); an unexpected exception inside one case becomes a violation
+    of that case (the run goes on)"""
+    try:
+        return fn()
+    except Exception as ex:   # noqa
+        import traceback
+        ctx.obligation(f"{what}: no unexpected exception [{descr}]", False,
+                       repr(ex))
+        _EXC_COUNT[what] = _EXC_COUNT.get(what, 0) + 1
+        if _EXC_COUNT[what] > 8:
+            return default
+        ctx.violation(f"C06:exception:{what}:{descr}"[:300],
+                      f"{what} raised / returned an unexpected object: "
+                      f"{ex!r}",
+                      {"case": descr, "exception": repr(ex),
+                       "traceback": traceback.format_exc()[-1500:]}, True)
+        return default
 
 
 def construct(kind, b, u, l, pool):
@@ -432,7 +466,10 @@ def run_constructors(ctx, pool):
             if key in seen:
                 continue
             seen.add(key)
-            e = construct(kind, b, u, l, pool)
+            e = guarded(ctx, "constructor", show(kind, b, u, l, pool),
+                        lambda: construct(kind, b, u, l, pool))
+            if e is None:
+                continue
             results.append((kind, b, tuple(u), tuple(l), e))
             batch.add(coq_case(kind, b, u, l), e, key)
             canonical = (e[1][0] == 1 and e[1][1] == 0 and
@@ -450,7 +487,10 @@ def run_constructors(ctx, pool):
     # invalid bra_ket_sym
     for kind in KINDS:
         for u, l in (((0,), (6,)), ((0, 1), (6, 6)), ((0, 0), (6, 1)), ((), ())):
-            e = construct(kind, 2, u, l, pool)
+            e = guarded(ctx, "constructor", show(kind, 2, u, l, pool),
+                        lambda: construct(kind, 2, u, l, pool))
+            if e is None:
+                continue
             results.append((kind, 2, u, l, e))
             batch.add(coq_case(kind, 2, u, l), e, (kind, 2, u, l))
             ctx.case(key=(kind, 2, u, l), kind=f"badbks:{kind}")
@@ -529,7 +569,11 @@ def run_same_name(ctx):
                     if nu == 2 and nl == 2 and (u[0] + l[1]) % 2:
                         continue
                     for b in (0, 1, -1):
-                        e = construct(kind, b, u, l, pool)
+                        e = guarded(ctx, "constructor (same-named dummies)",
+                                    show(kind, b, u, l, pool),
+                                    lambda: construct(kind, b, u, l, pool))
+                        if e is None:
+                            continue
                         batch.add(coq_case(kind, b, u, l), e,
                                   (kind, b, u, l))
                         ctx.case(key=("dummy", kind, b, u, l),
@@ -586,8 +630,13 @@ def run_deltas(ctx):
     survivors = []
     for a in range(n):
         for b in range(n):
-            res = KroneckerDelta(pool.idx[a], pool.idx[b])
-            e = enc_delta(res, pool)
+            got = guarded(
+                ctx, "KroneckerDelta", f"{pool.idx[a]!r},{pool.idx[b]!r}",
+                lambda: (lambda r_: (r_, enc_delta(r_, pool)))(
+                    KroneckerDelta(pool.idx[a], pool.idx[b])))
+            if got is None:
+                continue
+            res, e = got
             batch.add(f"({a}, {b})", e, (a, b))
             ctx.case(key=("delta", a, b), nontrivial=(e[1] != [2, a, b]),
                      kind=f"delta:{['zero', 'one', 'kept'][e[1][0]]}")
@@ -652,6 +701,7 @@ def run_subs(ctx, pool, results):
     nsub = 1500 if ctx.tier == "quick" else 8000
     b_sim = Batch(ctx, "subs_sim", "run_sub", pool)
     b_seq = Batch(ctx, "subs_seq", "run_seq", pool)
+    b_sim2 = Batch(ctx, "subs_sim2", "run_sub", pool)
     bad_sim = []
     nsmp = 0
     for _ in range(nsub):
@@ -678,20 +728,31 @@ def run_subs(ctx, pool, results):
         pairs = list(zip(src, dst))
         case = f"({coq_case(kind, b, cu, cl)}, {coq_pairs(pairs)})"
         mp = {pool.idx[a]: pool.idx[c] for a, c in pairs}
-        try:
-            r1 = enc_obj(t.xreplace(mp), pool)
-            r2 = enc_obj(t.subs(mp, simultaneous=True), pool)
-        except (Inputerror, NotImplementedError):
-            r1 = r2 = ("", [2])
-        if r1 != r2:
+        descr = f"{show(kind, b, cu, cl, pool)} with {mp}"
+
+        def enc_call(f):
+            try:
+                return enc_obj(f(), pool)
+            except (Inputerror, NotImplementedError):
+                return ("", [2])
+        r1 = guarded(ctx, "xreplace", descr,
+                     lambda: enc_call(lambda: t.xreplace(mp)))
+        r2 = guarded(ctx, "subs(simultaneous=True)", descr,
+                     lambda: enc_call(lambda: t.subs(mp, simultaneous=True)))
+        r3 = guarded(ctx, "subs(list)", descr,
+                     lambda: enc_call(lambda: t.subs(
+                         [(pool.idx[a], pool.idx[c]) for a, c in pairs])))
+        dkey = (kind, b, tuple(cu), tuple(cl), tuple(pairs))
+        if r1 is not None and r2 is not None and r1 != r2:
             bad_sim.append((show(kind, b, cu, cl, pool), str(mp), r1, r2))
-        b_sim.add(case, r1, (kind, b, tuple(cu), tuple(cl), tuple(pairs)))
-        try:
-            r3 = enc_obj(t.subs([(pool.idx[a], pool.idx[c])
-                                 for a, c in pairs]), pool)
-        except (Inputerror, NotImplementedError):
-            r3 = ("", [2])
-        b_seq.add(case, r3, (kind, b, tuple(cu), tuple(cl), tuple(pairs)))
+        if r1 is not None:
+            b_sim.add(case, r1, dkey)
+        if r2 is not None:
+            b_sim2.add(case, r2, dkey)
+        if r3 is not None:
+            b_seq.add(case, r3, dkey)
+        if r1 is None or r3 is None:
+            continue
         smp = None
         if nsmp < 3 and r1 != r3 and r1[1][0] == 1:
             nsmp += 1
@@ -705,6 +766,7 @@ def run_subs(ctx, pool, results):
                       "xreplace and simultaneous subs disagree",
                       {"cases": bad_sim[:3]}, True)
     for bt, what in ((b_sim, "simultaneous substitution (xreplace)"),
+                     (b_sim2, "subs(simultaneous=True)"),
                      (b_seq, "sequential substitution (subs(list))")):
         mism, _ = bt.run()
         for d, e, got in mism[:3]:
@@ -716,6 +778,162 @@ def run_subs(ctx, pool, results):
                  "map": [(str(pool.idx[a]), str(pool.idx[c]))
                          for a, c in pairs],
                  "implementation": e, "model": got}, True)
+
+
+def run_subs_group(ctx, pool):
+    """simultaneous substitution with maps that exchange / cycle >= 2 indices
+    inside one (anti)symmetric group, across the groups, or onto each other:
+    tensor.subs(d, simultaneous=True), Expr(tensor).subs(d, simultaneous=True)
+    and xreplace(d) against the model (rename, then canonicalise) and against
+    the value semantics value(result)(r) = value(tensor)(r o d) on numeric
+    models with exactly the declared symmetry"""
+    rng = ctx.rng
+    n = len(pool)
+    nbase = 2 if ctx.tier == "quick" else 8
+    shapes = [(2, 2), (3, 3), (2, 0), (3, 2), (0, 3), (2, 3)]
+    bats = {w: Batch(ctx, f"gsub_{w}", "run_sub", pool)
+            for w in ("xreplace", "subs", "Expr")}
+    ictx = adcio.IdxCtx()
+    pyi = [ictx.conv(x) for x in pool.idx]
+    nval = 0
+    nbad = {}
+    for kind in KINDS:
+        for b in (0, 1, -1):
+            for (nu, nl) in shapes:
+                if b != 0 and nu != nl:
+                    continue
+                for _ in range(nbase):
+                    u = rng.sample(range(n), nu)
+                    l = rng.sample([x for x in range(n) if x not in u], nl) \
+                        if rng.random() < 0.7 else rng.sample(range(n), nl)
+                    t = CLS[kind]("T", tuple(pool.idx[x] for x in u),
+                                  tuple(pool.idx[x] for x in l), b)
+                    if t == 0:
+                        continue
+                    if isinstance(t, Mul):
+                        t = -t
+                    cu = [pool.pos[x] for x in t.upper]
+                    cl = [pool.pos[x] for x in t.lower]
+                    maps = []
+                    for grp in (cu, cl):
+                        for perm in itertools.permutations(grp):
+                            if list(perm) != list(grp):
+                                maps.append([(a_, c_) for a_, c_ in
+                                             zip(grp, perm) if a_ != c_])
+                    if cu and cl:
+                        pu = list(cu)
+                        rng.shuffle(pu)
+                        pl = list(cl)
+                        rng.shuffle(pl)
+                        maps.append([(a_, c_) for a_, c_ in
+                                     zip(cu + cl, pu + pl) if a_ != c_])
+                        a_, c_ = rng.choice(cu), rng.choice(cl)
+                        if a_ != c_:
+                            maps.append([(a_, c_), (c_, a_)])      # across
+                        both = list(dict.fromkeys(cu + cl))
+                        sh_ = both[:]
+                        rng.shuffle(sh_)
+                        maps.append([(x, y) for x, y in zip(both, sh_)
+                                     if x != y])                   # any cycle
+                    if len(cu) >= 2:                               # merge
+                        maps.append([(cu[0], cu[1]), (cu[1], cu[0]),
+                                     ] + ([(cl[0], cu[0])] if cl and
+                                          cl[0] not in cu else []))
+                    seen = set()
+                    for pairs in maps:
+                        # a map: one image per source index
+                        pairs = list({x: y for x, y in pairs}.items())
+                        if not pairs or tuple(pairs) in seen:
+                            continue
+                        seen.add(tuple(pairs))
+                        mp = {pool.idx[x]: pool.idx[y] for x, y in pairs}
+                        descr = f"{show(kind, b, cu, cl, pool)} with {mp}"
+                        case = (f"({coq_case(kind, b, cu, cl)}, "
+                                f"{coq_pairs(pairs)})")
+                        dkey = (kind, b, tuple(cu), tuple(cl), tuple(pairs))
+                        calls = {
+                            "xreplace": lambda: t.xreplace(mp),
+                            "subs": lambda: t.subs(mp, simultaneous=True),
+                            "Expr": lambda: Expr(t).subs(
+                                mp, simultaneous=True).sympy}
+                        for w, f in calls.items():
+                            def one():
+                                try:
+                                    res = f()
+                                except (Inputerror, NotImplementedError):
+                                    return None, ("", [2])
+                                return res, enc_obj(res, pool)
+                            got = guarded(ctx, f"{w}(simultaneous)", descr,
+                                          one)
+                            ctx.case(key=("gsub", w) + dkey, nontrivial=True,
+                                     kind=f"gsub:{w}:{kind}")
+                            if got is None:
+                                continue
+                            res, enc = got
+                            bats[w].add(case, enc, dkey + (w,))
+                            if res is None:
+                                continue
+                            # value semantics (independent of the Coq model)
+                            nval += 1
+                            bad = guarded(
+                                ctx, f"value of {w}(simultaneous)", descr,
+                                lambda: subs_value_diff(ctx, t, res, pairs,
+                                                        pyi))
+                            if not ctx.obligation(
+                                    f"{w}(simultaneous) renames: {descr}",
+                                    not bad, str(bad)):
+                                nbad[w] = nbad.get(w, 0) + 1
+                                if bad and nbad[w] <= 6:
+                                    ctx.violation(
+                                        f"C06:subs-value:{w}:{descr}"[:300],
+                                        f"{w} with a simultaneous index map "
+                                        "does not have the value of the "
+                                        "renamed tensor",
+                                        dict(bad, tensor=show(kind, b, cu, cl,
+                                                              pool),
+                                             map=str(mp), result=str(res)),
+                                        True)
+    for w, bt in bats.items():
+        mism, _ = bt.run()
+        for d, e, got in mism[:4]:
+            kind, b, cu, cl, pairs, w_ = d
+            ctx.violation(
+                f"C06:subs-model:{w_}:{show(kind, b, cu, cl, pool)}:{pairs}",
+                f"{w_} with a simultaneous map differs from the Coq model "
+                "(subst_tensor: rename, then canonicalise)",
+                {"tensor": show(kind, b, cu, cl, pool),
+                 "map": [(str(pool.idx[x]), str(pool.idx[y]))
+                         for x, y in pairs],
+                 "implementation": e, "model": got}, True)
+    ctx.extra["group_subs_value_checks"] = nval
+    if nbad:
+        ctx.note(f"group substitution: value check failed {nbad} times "
+                 "(first 6 per call style reported as violations)")
+
+
+def subs_value_diff(ctx, t, res, pairs, pyi):
+    """None if value(res)(r) == value(t)(r o d) on random symmetric models,
+    else a replay dict"""
+    rng = ctx.rng
+    terms_in = adcio.conv_expr(t)
+    terms_out = adcio.conv_expr(res)
+    d = {pyi[x]: pyi[y] for x, y in pairs}
+    idxs = sorted({i_ for tm in terms_in for i_ in adcio.term_indices(tm)}
+                  | set(d.values()))
+    for trial in range(2):
+        model = numeric.Model(rng.randrange(1 << 30), (2, 1), (1, 2))
+        norb = len(model.orbs)
+        for _ in range(3):
+            env = {x: rng.randrange(norb) for x in idxs}
+            env_in = {x: env[d.get(x, x)] for x in idxs}
+            v_want = model.eval_expr(terms_in, env_in)
+            v_got = model.eval_expr(terms_out, env)
+            if v_want != v_got:
+                return {"model_seed": model.seed,
+                        "assignment": {repr(k): v for k, v in env.items()},
+                        "value_of_renamed_tensor": v_want,
+                        "value_of_result": v_got, "prime": numeric.P}
+    return None
 
 
 def run_delta_subs(ctx, dpool):
@@ -732,7 +950,10 @@ def run_delta_subs(ctx, dpool):
         dst = [rng.choice([a, b, rng.randrange(n)]) for _ in src]
         pairs = list(zip(src, dst))
         mp = {dpool.idx[x]: dpool.idx[y] for x, y in pairs}
-        e = enc_delta(d.xreplace(mp), dpool)
+        e = guarded(ctx, "KroneckerDelta.xreplace", f"{d}: {mp}",
+                    lambda: enc_delta(d.xreplace(mp), dpool))
+        if e is None:
+            continue
         batch.add(f"(({a}, {b}), {coq_pairs(pairs)})", e, (a, b, tuple(pairs)))
         ctx.case(key=("dsub", a, b, tuple(pairs)), kind="delta:subs")
     mism, _ = batch.run()
@@ -845,6 +1066,21 @@ def run_assumptions(ctx, pool):
     i, a = get_symbols("ia")
     probe_e = Amplitude("t1cc", (a,), (i,))
     cases.append((probe_e, True, ["t1"], [], "probe-idem"))
+    # powers of tensors whose declared bra-ket symmetry needs the swap
+    # (the sign belongs inside the power)
+    i_, j_, a_ = get_symbols("ija")
+    b_ = get_symbols(["a"], ["a"])[0]          # a_alpha (in the pool)
+    for cls_ in (AntiSymmetricTensor, SymmetricTensor, Amplitude):
+        for tn, (up, lo) in enumerate((((a_,), (i_,)), ((a_, b_), (i_, j_)),
+                                       ((b_, a_), (i_, j_)))):
+            for ex_ in (2, 3):
+                base_ = cls_("X", up, lo)
+                for real_ in (False, True):
+                    cases.append((base_ ** ex_, real_, [], ["X"],
+                                  f"pow-anti-{cls_.__name__}-{tn}-{ex_}-{real_}"))
+                cases.append((2 * base_ ** ex_ * cls_("B", up, lo), False,
+                              ["B"], ["X"],
+                              f"pow-mixed-{cls_.__name__}-{tn}-{ex_}"))
     for k in range(ncase):
         e = rand_expr(rng, pool)
         if e == 0:
@@ -859,13 +1095,17 @@ def run_assumptions(ctx, pool):
     obs = []
     tens_cases, tens_index = [], {}
     for e, real, syms, antis, label in cases:
-        try:
-            E = Expr(e, real=real, sym_tensors=list(syms),
-                     antisym_tensors=list(antis))
-            out, exc = E.sympy, None
-        except (Inputerror, NotImplementedError) as ex:
-            E, out, exc = None, None, type(ex).__name__
-        terms_in = adcio.conv_expr(e)
+        def impl():
+            try:
+                E_ = Expr(e, real=real, sym_tensors=list(syms),
+                          antisym_tensors=list(antis))
+                return E_, E_.sympy, None, adcio.conv_expr(e)
+            except (Inputerror, NotImplementedError) as ex:
+                return None, None, type(ex).__name__, adcio.conv_expr(e)
+        got = guarded(ctx, "Expr(.., assumptions)", f"{label}: {e}", impl)
+        if got is None:
+            continue
+        E, out, exc, terms_in = got
         obs.append((e, real, syms, antis, label, E, out, exc, terms_in))
         for c, facs in terms_in:
             for atom, inv in facs:
@@ -900,7 +1140,7 @@ def run_assumptions(ctx, pool):
                    "tensors", not errs, "; ".join(errs)[:1000])
     model = [parse_enc(v) if v else None for v in vals]
 
-    for e, real, syms, antis, label, E, out, exc, terms_in in obs:
+    def one_case(e, real, syms, antis, label, E, out, exc, terms_in):
         syms_eff = set(syms) | ({"f", "V"} if real else set())
         ctx.case(key=("assume", str(e), real, tuple(syms), tuple(antis)),
                  nontrivial=True, kind=f"assume:real={real}",
@@ -948,7 +1188,7 @@ def run_assumptions(ctx, pool):
                         pred.append((coef, nf))
         if incomplete:
             ctx.obligation(f"assume {label}: model evaluated", False)
-            continue
+            return  
         if err != (exc is not None):
             ctx.obligation(f"assume {label}: exception iff model error", False,
                            f"exc={exc}")
@@ -956,10 +1196,10 @@ def run_assumptions(ctx, pool):
                           "Expr(..) raises / does not raise unlike the model",
                           {"expr": str(e), "real": real, "sym": syms,
                            "antisym": antis, "exception": exc}, True)
-            continue
+            return  
         if err:
             ctx.obligation(f"assume {label}: exception as in the model", True)
-            continue
+            return  
         terms_out = adcio.conv_expr(out)
         same = norm_terms(pred) == norm_terms(terms_out)
         if not ctx.obligation(f"assume {label}: Expr(..) = model "
@@ -990,7 +1230,7 @@ def run_assumptions(ctx, pool):
                                           for m in final_names(atom[2]))
                    for c, facs in terms_in for atom, inv in facs)
         if both:
-            continue   # declared symmetric and antisymmetric: raises later
+            return     # declared symmetric and antisymmetric: raises later
         # ---- idempotence ----
         second = None
         try:
@@ -1081,15 +1321,39 @@ def run_assumptions(ctx, pool):
                            "value_in": bad[2], "value_out": bad[3],
                            "prime": numeric.P}, True)
 
+    for item in obs:
+        guarded(ctx, "Expr(.., assumptions) check", f"{item[4]}: {item[0]}",
+                lambda: one_case(*item))
+
+
+def stream_guard(ctx, name, fn, default=None):
+    """a crash outside the per-case guards: reported, the other streams run"""
+    try:
+        return fn()
+    except Exception as ex:   # noqa
+        import traceback
+        tb = traceback.format_exc()
+        ctx.note(tb)
+        ctx.obligation(f"stream {name} completed", False, repr(ex))
+        ctx.violation(f"C06:stream-exception:{name}",
+                      f"the {name} stream of the harness raised {ex!r}",
+                      {"traceback": tb[-2500:]}, False)
+        return default
+
 
 def run(ctx):
     pool = make_pool(ctx.tier)
-    results = run_constructors(ctx, pool)
-    run_same_name(ctx)
-    dpool = run_deltas(ctx)
-    run_subs(ctx, pool, results)
-    run_delta_subs(ctx, dpool)
-    run_assumptions(ctx, pool)
+    results = stream_guard(ctx, "constructors",
+                           lambda: run_constructors(ctx, pool), [])
+    stream_guard(ctx, "same-named dummies", lambda: run_same_name(ctx))
+    dpool = stream_guard(ctx, "deltas", lambda: run_deltas(ctx))
+    stream_guard(ctx, "substitution", lambda: run_subs(ctx, pool, results))
+    stream_guard(ctx, "group substitution",
+                 lambda: run_subs_group(ctx, pool))
+    if dpool is not None:
+        stream_guard(ctx, "delta substitution",
+                     lambda: run_delta_subs(ctx, dpool))
+    stream_guard(ctx, "assumptions", lambda: run_assumptions(ctx, pool))
 
 
 def replay(ctx, rep):
